@@ -581,6 +581,54 @@ func (c *ConcCtx) gd(ev *Event) *Term {
 
 func (c *ConcCtx) xvar(ev *Event) *Term { return Var(fmt.Sprintf("x!%d", ev.ID), BoolSort) }
 
+// tm: real (wall-clock) time of an event in nanoseconds; only constrained for timed events (see encodeTime)
+func (c *ConcCtx) tm(ev *Event) *Term { return Var(fmt.Sprintf("tm!%d", ev.ID), IntSort) }
+
+func durInt(d *Term) *Term {
+	if d.IsConst() {
+		return IntConst(d.SVal())
+	}
+	if d.Sort.K == SInt {
+		return d
+	}
+	neg := BVCmp("bvslt", d, BVConst(0, d.Sort.W))
+	return Ite(neg, App("-", IntSort, App("bv2nat", IntSort, BVNeg(d))), App("bv2nat", IntSort, d))
+}
+
+// encodeTime: real time is monotone along the clock order of timed events
+func (c *ConcCtx) encodeTime(add func(*Term)) {
+	var timed []*Event
+	for _, ev := range c.events {
+		switch ev.Kind {
+		case "arm", "stoptimer", "ghost":
+			timed = append(timed, ev)
+		case "recv":
+			if ev.Name == "ticker" || ev.Name == "timer" {
+				timed = append(timed, ev)
+			}
+		}
+	}
+	// same thread: creation order is program order; different threads: ordered like their clocks
+	last := map[int]*Event{}
+	for _, a := range timed {
+		add(App("<=", BoolSort, IntConst(0), c.tm(a)))
+		if p, ok := last[a.Thread]; ok {
+			add(App("<=", BoolSort, c.tm(p), c.tm(a)))
+		}
+		last[a.Thread] = a
+	}
+	for i, a := range timed {
+		for _, b := range timed[i+1:] {
+			if a.Thread == b.Thread {
+				continue
+			}
+			add(Implies(lt(a.Clk, b.Clk), App("<=", BoolSort, c.tm(a), c.tm(b))))
+			add(Implies(lt(b.Clk, a.Clk), App("<=", BoolSort, c.tm(b), c.tm(a))))
+		}
+	}
+}
+
+
 func lt(a, b *Term) *Term { return App("<", BoolSort, a, b) }
 
 func (c *ConcCtx) sideConstraints() []*Term {
@@ -662,6 +710,9 @@ func (c *ConcCtx) build(e *Exec) {
 	c.encodeCond(byLoc, add)
 	c.encodeChans(e, byLoc, add)
 	c.encodeCtx(e, byLoc, add)
+	if e.cfg["timers"] == "real" {
+		c.encodeTime(add)
+	}
 	// named ghost events -> placeholders
 	for name, v := range c.place {
 		parts := strings.SplitN(name, "@", 2)
@@ -677,6 +728,10 @@ func (c *ConcCtx) build(e *Exec) {
 		case "clk":
 			for _, a := range alts {
 				add(Implies(a.Guard, Eq(v, a.Clk)))
+			}
+		case "time":
+			for _, a := range alts {
+				add(Implies(a.Guard, Eq(v, c.tm(a))))
 			}
 		case "exec":
 			var gs []*Term
@@ -906,8 +961,6 @@ func (c *ConcCtx) encodeChans(e *Exec, byLoc map[string][]*Event, add func(*Term
 		if ci != nil && (ci.kind == "ticker" || ci.kind == "timer") {
 			// environment-driven: a receive may complete at any time after the ticker/timer was armed and before
 			// it is stopped (late or dropped ticks are allowed); a timer delivers at most once
-			// (idealised semantics: a value fired before a Stop is not delivered afterwards - the pre-Go-1.23
-			// stale value left in the channel buffer by Stop+Reset is NOT modelled)
 			var stops, arms []*Event
 			for _, ev := range evs {
 				if ev.Kind == "stoptimer" {
@@ -916,13 +969,41 @@ func (c *ConcCtx) encodeChans(e *Exec, byLoc map[string][]*Event, add func(*Term
 					arms = append(arms, ev)
 				}
 			}
+			realTime := c.e.cfg["timers"] == "real"
 			for i, r := range recvs {
-				// some arming precedes the receive with no stop in between
 				var armed []*Term
 				for _, a := range arms {
 					conj := []*Term{c.gd(a), lt(a.Clk, r.Clk)}
-					for _, s := range stops {
-						conj = append(conj, Or(Not(c.gd(s)), lt(s.Clk, a.Clk), lt(r.Clk, s.Clk)))
+					if !realTime {
+						// idealised: a value is only delivered while the timer is armed (no stop in between); real
+						// elapsed time is not modelled
+						for _, s := range stops {
+							conj = append(conj, Or(Not(c.gd(s)), lt(s.Clk, a.Clk), lt(r.Clk, s.Clk)))
+						}
+					} else {
+						// Go <= 1.22 semantics with real time: the timer fires at arm-time + delay unless it was
+						// stopped or re-armed BEFORE that instant; the fired value stays in the channel buffer
+						// (also across a later Stop / Reset) until it is received
+						fire := App("+", IntSort, c.tm(a), durInt(a.Val))
+						conj = append(conj, App("<=", BoolSort, fire, c.tm(r)))
+						for _, s := range stops {
+							conj = append(conj, Or(Not(c.gd(s)), lt(s.Clk, a.Clk), App("<=", BoolSort, fire, c.tm(s))))
+						}
+						for _, a2 := range arms {
+							if a2 != a {
+								conj = append(conj, Or(Not(c.gd(a2)), lt(a2.Clk, a.Clk), App("<=", BoolSort, fire, c.tm(a2))))
+							}
+						}
+						if ci.kind == "ticker" && a.Val.IsConst() {
+							// k-th tick not before arm-time + k * period
+							cnt := IntConst(1)
+							for j, r2 := range recvs {
+								if j != i {
+									cnt = App("+", IntSort, cnt, Ite(And(c.gd(r2), lt(a.Clk, r2.Clk), lt(r2.Clk, r.Clk)), IntConst(1), IntConst(0)))
+								}
+							}
+							conj = append(conj, App("<=", BoolSort, App("+", IntSort, c.tm(a), App("*", IntSort, IntConst(a.Val.SVal()), cnt)), c.tm(r)))
+						}
 					}
 					if ci.kind == "timer" {
 						// one delivery per arming: no other receive between this arming and r
@@ -1082,6 +1163,9 @@ func (c *ConcCtx) writeTrace(e *Exec, dir string, asserts []*Term, timeoutS int)
 	var extra []*Term
 	for _, ev := range c.events {
 		extra = append(extra, ev.Guard, ev.Clk)
+		if e.cfg["timers"] == "real" {
+			extra = append(extra, c.tm(ev))
+		}
 		if ev.Read != nil {
 			extra = append(extra, ev.Read)
 		}
@@ -1138,6 +1222,11 @@ func (c *ConcCtx) writeTrace(e *Exec, dir string, asserts []*Term, timeoutS int)
 		}
 		if ev.Name != "" {
 			d += " name=" + ev.Name
+		}
+		if e.cfg["timers"] == "real" {
+			if tv, ok := modelInt(val(c.tm(ev))); ok {
+				d += fmt.Sprintf(" t=%.3fs", float64(tv)/1e9)
+			}
 		}
 		rows = append(rows, row{ck, fmt.Sprintf("%6d  %-22s %-10s %-14s%s  @%s", ck, c.threads[ev.Thread].name, ev.Kind, ev.Loc, d, ev.Site)})
 	}
